@@ -93,6 +93,77 @@ def mission_groups(q):
     return groups
 
 
+def pipeline_section(ctx, q):
+    """Pipeline.tla (Framer o Decode o classification) model-checked and replayed through the real packet_generator."""
+    import os
+    from harness import core, framer_io
+    from harness.props import c11
+    from harness.props.framer_common import _stream_bytes
+    from harness.tlaval import edge_cover, load_dot
+    from space_packet_parser.exceptions import UnrecognizedPacketTypeError
+    dobj = xdoc.load(c11.definition())
+    for parse_bad, yield_unrec in ((True, False), (False, True)):
+        consts = ("  TrimAt = 5\n  DefaultSock = 4\n  AsIs = FALSE\n  Eager = FALSE\n  ParseBad = %s\n  YieldUnrec = %s\n  MaxPackets = %d\n"
+                  "  Skips = {0, 2}\n  RSizes = {0, 2, 7}\n  WithCuts = TRUE\n" % (str(parse_bad).upper(), str(yield_unrec).upper(), 2 if q else 3))
+        cfg = os.path.join(ctx.work, f"pipe-{parse_bad}.cfg")
+        with open(cfg, "w") as f:
+            f.write("SPECIFICATION MCSpec\nCONSTANTS\n" + consts + "INVARIANT ResultsFollowOut\nINVARIANT EndToEnd\nINVARIANT DoneExact\nINVARIANT NoCrash\n"
+                    "PROPERTY Terminates\nCHECK_DEADLOCK FALSE\n")
+        ctx.tlc_expect_ok("MC_Pipeline", cfg, tag=f"pipeline-parse_bad={parse_bad}")
+        gcfg = os.path.join(ctx.work, f"pipe-gen-{parse_bad}.cfg")
+        with open(gcfg, "w") as f:
+            f.write("SPECIFICATION MCInitNext\nCONSTANTS\n" + consts.replace("MaxPackets = 3", "MaxPackets = 2").replace("RSizes = {0, 2, 7}", "RSizes = {0, 2}")
+                    + "INVARIANT ResultsFollowOut\nCHECK_DEADLOCK FALSE\n")
+        dump = os.path.join(ctx.work, f"pipe-graph-{parse_bad}")
+        ctx.tlc_expect_ok("MC_Pipeline", gcfg, dump=dump, count=False, tag="pipeline-dump", workers=8)
+        g = load_dot(dump + ".dot")
+        paths, ncov = edge_cover(g, rng=ctx.rng, max_paths=600 if q else None)
+        os.unlink(dump + ".dot")
+        ctx.extra.setdefault("pipeline_graphs", []).append({"nodes": len(g.state_text), "edges": g.nedges, "paths": len(paths)})
+        for path in paths:
+            s0 = g.state(path[0])
+            data = _stream_bytes(s0)
+            chunks, prev = [], s0
+            for a, n in path[1:]:
+                st = g.state(n)
+                if st["srcpos"] > prev["srcpos"]:
+                    chunks.append(st["srcpos"] - prev["srcpos"])
+                prev = st
+            if prev["pc"] != "done":
+                continue
+            outs = prev["out"]
+            want = prev["results"]
+            script = framer_io.Script(chunks)
+            with warnings.catch_warnings(record=True) as w:
+                warnings.simplefilter("always")
+                ev, items, outcome = framer_io.run_framer(data, s0["kind"], s0["rsize"], s0["skip"], chooser=script, max_items=len(want) + 2, via=dobj,
+                                                          gen_kwargs={"parse_bad_pkts": parse_bad, "yield_unrecognized_packet_errors": yield_unrec,
+                                                                      "root_container_name": "ROOT"})
+            nw = sum(1 for x in w if "did not match the length of data available" in str(x.message))
+            prob = None
+            if outcome != "stop":
+                prob = f"generator {outcome}; model terminates with {len(want)} items"
+            elif len(items) != len(want):
+                prob = f"{len(items)} items yielded; model {[(r['pkt'], r['kind']) for r in want]}"
+            else:
+                for it, r in zip(items, want):
+                    o = outs[r["pkt"] - 1]
+                    raw = bytes(it.partial_data.raw_data) if isinstance(it, UnrecognizedPacketTypeError) else bytes(it.raw_data)
+                    if isinstance(it, UnrecognizedPacketTypeError) != (r["kind"] == "unrec_yield"):
+                        prob = f"item for packet {r['pkt']} is {type(it).__name__}; model kind {r['kind']}"
+                    elif raw != data[o["start"]:o["start"] + o["n"]]:
+                        prob = f"item for packet {r['pkt']} does not carry that packet's bytes"
+                # one warning per packet the model classifies as flagged (yielded with warning or withheld)
+                flagged = sum(1 for o in outs if data[o["start"] + 1] == 1 and o["n"] - 6 != 2)
+                if not prob and nw != flagged:
+                    prob = f"{nw} length-mismatch warnings; model flags {flagged} packets"
+            ctx.traces += 1
+            ctx.count(("pipeline", data, s0["kind"], s0["rsize"], s0["skip"], tuple(chunks), parse_bad))
+            if prob:
+                ctx.violation("C01/pipeline/" + s0["kind"], prob, {"data": list(data), "kind": s0["kind"], "rsize": s0["rsize"], "skip": s0["skip"],
+                                                                  "chunks": chunks, "parse_bad": parse_bad, "yield_unrec": yield_unrec})
+
+
 def run(ctx):
     q = ctx.quick
     rng = ctx.rng
@@ -151,6 +222,7 @@ def run(ctx):
         if prob:
             ctx.violation("C01/stream/" + prob.split(":")[0][:30].replace(" ", "-"), prob, {"defn": g["defn"], "pkts": g["pkts"], "route": list(g["route"])})
     ctx.extra["streams_compared"] = ns
+    pipeline_section(ctx, q)
     for ln, pi, status, exact in col:
         if status == "ok" and len(ln["obs"][pi]["items"]) > 12:
             ctx.sample({"route": ln["route"], "packet": ln["pkts"][pi], "containers": list(ln["defn"]["containers"]),
